@@ -1218,6 +1218,30 @@ impl Sim {
                             format!("store of {} returned offset {} overlapping the region handed out at offset {} ({})", short(&e.id), off, o, short(&id)),
                         ))
                     } else {
+                        if e.kind == 5 && !self.model.odd_a_ignored {
+                            // which reading of an odd `a` target does the implementation take?
+                            for t in e.tags.iter().filter(|t| t.len() >= 2 && t[0] == "a") {
+                                if let Some(a) = parse_a_target(&t[1]) {
+                                    let (na, odd) = norm_target(a);
+                                    if odd && na.pk == e.pk {
+                                        let before = self.model.deleted_addrs.get(&na).copied();
+                                        if before.map_or(true, |b| b < e.at) {
+                                            let real = self.store.as_ref().and_then(|s| s.naddr_is_deleted_asof(&real::addr_of(&na)).ok()).flatten().map(|t| t.as_u64());
+                                            if real == before {
+                                                // no marker where the address-naming reading puts it:
+                                                // the tag was ignored - or half-applied, which the
+                                                // observation below then shows
+                                                self.model.odd_a_ignored = true;
+                                                self.stats.inc("probe/odd_a_target_ignored");
+                                            } else {
+                                                self.stats.inc("probe/odd_a_target_names_the_address");
+                                            }
+                                        }
+                                        break;
+                                    }
+                                }
+                            }
+                        }
                         let fx = self.model.apply_store(e, *off, len);
                         if e.kind != 5 && !fx.removed.is_empty() {
                             self.stats.inc("probe/displaced");
